@@ -59,7 +59,7 @@ func goSide(w *lib.Writer, env *envT) {
 			package.preload.p = function() return "P" end
 			package.loaders = { package.loaders[1] }
 			local ok, e = pcall(require, "vhm0")
-			return require("p"), tostring(ok), tostring(e:find("not found", 1, true) ~= nil), tostring(e:find("stat ", 1, true) ~= nil)`,
+			return require("p"), tostring(ok), tostring(e:find("not found", 1, true) ~= nil), tostring(e:find(".lua", 1, true) ~= nil)`,
 			wantValues("P", "false", "true", "false")},
 		{"in-place edit of package.loaders is used", `
 			table.insert(package.loaders, 1, function(n) if n == "z" then return function() return "Z" end end end)
